@@ -416,6 +416,10 @@ impl Translator {
                 self.collect_locals_stmts(&stmts, &mut locals, &mono);
 
                 // (locals are addressed with 16-bit signed offsets)
+                if let Some(stmt) = stmts.first() {
+                    // an error about the frame is reported at its first statement
+                    self.update_current_file_and_lineno(st, stmt.node());
+                }
                 let nlocals = self.count_operand(st, locals.len(), MAX_LOCALS, "local variables");
                 self.emit(st, Instr::PushNil(nlocals));
                 let mut offset_table = OffsetTable::default();
@@ -567,6 +571,8 @@ impl Translator {
         let (arg_ids, captures, locals) =
             self.calculate_args_captures_locals(&desc.overload_ty, args, body, &mono);
         let nslots = captures.len() + locals.len();
+        // an error about the frame is reported at the start of the function's body
+        self.update_current_file_and_lineno(st, body.node());
         self.count_operand(st, nslots, MAX_LOCALS, "local variables and captures");
         self.count_operand(st, arg_ids.len(), MAX_LOCALS, "parameters");
         self.emit(st, Instr::PushNil(locals.len().min(MAX_LOCALS) as u16));
